@@ -18,8 +18,8 @@ Local Open Scope Z_scope.
 (** Guarded statement (what holds of the code at HEAD).  For EVERY write history [hist] (any number of
     WriteCSM requests, any rows in any order, many per interval, any intervals and years 1970..9999) to a
     variable-length bucket of timeframe [tf] with [plen] payload bytes per record, and every table
-    [clen] of stored block lengths, inside [guard_C09] (no F2/F3 input, codec within C10's bound; the former
-    classes F4, F1 and 4H-looked-up-as-2H are fixed in /repo and no longer guarded):
+    [clen] of stored block lengths, inside [guard_C09] (no F2 input, codec within C10's bound; the former
+    classes F4, F1, F3 and 4H-looked-up-as-2H are fixed in /repo and no longer guarded):
     the query over all time succeeds and returns the rows R = the records of the final file state in
     (year, slot, tick) order, where
       - R is a PERMUTATION of the written records, each quantised by the tick codec (every record exactly
@@ -60,10 +60,10 @@ Theorem C09_writer : forall cmds st,
 Proof. intros cmds st S. split; [now apply apply_cmds_ok | apply apply_cmds_perm]. Qed.
 Print Assumptions C09_writer.
 
-(** without an index-0 row and without a prevYear misfire every written row is stored under its own
-    (year, interval index) — for every tick encoder *)
+(** without an index-0 row every written row is stored under its own (year, interval index) — for
+    every tick encoder (the prevYear misfire, finding F3, is fixed) *)
 Theorem C09_store : forall (encf : Z -> Z -> Z) tf hist,
-  existsb (f2_row tf) (concat hist) = false -> existsb (f3_misfire tf) hist = false ->
+  existsb (f2_row tf) (concat hist) = false ->
   store_ok (run encf tf hist) /\ Permutation (flatten (run encf tf hist)) (map (entry encf tf) (concat hist)).
 Proof. exact run_store. Qed.
 Print Assumptions C09_store.
@@ -78,8 +78,8 @@ Print Assumptions C09_read_all.
 
 (* ------------------------------------------------------------------------------------------ *)
 (** Full statement (the property as given): the same for every history of well-formed rows in every
-    on-disk timeframe, without the guard.  Refuted by two replayed witnesses, one per open class
-    (F4, F1 and the 4H lookup are fixed: their witnesses are regression examples below). *)
+    on-disk timeframe, without the guard.  Refuted by the replayed witness of the one open class
+    (F4, F1, F3 and the 4H lookup are fixed: their witnesses are regression examples below). *)
 Definition C09_full : Prop := forall tf plen clen hist,
   is_tf tf = true -> forallb (row_ok plen) (all_rows hist) = true ->
   let R := var_rows_all (final_bucket enc dec tf plen clen hist) in
@@ -117,20 +117,16 @@ Definition w_F1 : list (list wrow) := [ [mkW 1583056850 6 (i32le 5)] ].
 Example C09_former_F1 : guard_C09 enc dec 60000000000 4 (fun _ => 20) w_F1 = true.
 Proof. vm_compute. reflexivity. Qed.
 
-(** F3, class cross-year-merge: WriteRecords never updates prevYear; in the request
-    [2017-02-03 04:05:06; 2018-02-03 04:06:10; 2017-02-03 04:06:20] the third row is merged into the
-    2018 command and is returned dated 2018.  (corpus/C09/f3_cross_year_merge.json) *)
+(** former F3 witness (class cross-year-merge, fixed in /repo 49eddda: WriteRecords keeps prevYear updated): in
+    the request [2017-02-03 04:05:06; 2018-02-03 04:06:10; 2017-02-03 04:06:20] the third row used to be
+    merged into the 2018 command; it is stored and returned under 2017 now.
+    (corpus/C09/f3_cross_year_merge.json) *)
 Definition w_F3 : list (list wrow) :=
   [ [mkW 1486094706 0 (i32le 1); mkW 1517630770 0 (i32le 2); mkW 1486094780 0 (i32le 3)] ].
-Theorem C09_refuted_F3 : ~ C09_full.
-Proof.
-  intros H. destruct (H 60000000000 4 (fun _ => 1000) w_F3 eq_refl eq_refl) as (_ & P & _).
-  assert (I : In (quantise enc dec 60000000000 (mkW 1486094780 0 (i32le 3)))
-                 (var_rows_all (final_bucket enc dec 60000000000 4 (fun _ => 1000) w_F3))).
-  { eapply Permutation_in; [apply Permutation_sym; exact P|]. cbn [all_rows concat w_F3 app map In]. auto. }
-  vm_compute in I. repeat (destruct I as [I|I]; [discriminate I|]). exact I.
-Qed.
-Print Assumptions C09_refuted_F3.
+Example C09_former_F3 :
+  guard_C09 enc dec 60000000000 4 (fun _ => 20) w_F3 = true
+  /\ map fst (final enc 60000000000 w_F3) = [(2017, 47766); (2017, 47767); (2018, 47767)].
+Proof. split; vm_compute; reflexivity. Qed.
 
 (** former witness of class timeframe-4H-looked-up-as-2H (fixed in /repo d275195: utils.Timeframes lists 4H
     after 2H, QueryableTimeframe answers 4H with 4H): a 4H bucket is queryable.
